@@ -15,6 +15,11 @@ raises something else than TOMLConfigError on a well-formed file (KeyError on a 
 was no wire-fencing-room loop and no test of the length / emptiness of ensemble_engines, and
 the quantis default raised IndexError on an empty interface list.
 
+Later repairs of `check_config`: 971ccbc (`[current].size` must equal the number of interfaces) is
+modelled (`sizeTest`, `Cfg.curSize`; `checkAsIs` keeps the code before it as a record); adf2044 (a
+boolean `interface_cap`), d56000a (NaN in interfaces / cap / λ₋₁) and 2128e76 (a non-integer number of
+workers) reject values this `Int`-typed model cannot hold — they are judged by the tie only (block T).
+
 Interfaces, cap and λ₋₁ are only compared, so they are `Int` (the harness feeds
 integer-valued floats, exact in Python).  Shooting moves are carried as wf-flags
 (`true` = "wf"); only their number and — for the property — which ones are "wf" matter.
@@ -56,6 +61,10 @@ structure Cfg where
   engines : List (String × Engine)
   seed : Option Int
   acceptAll : Option Bool
+  /-- `config["current"]["size"]`: the number of slots the restart state was written for; `none` = the
+      dictionary has no `[current]` table (a raw input file before `setup_config` created one).  A `[current]`
+      table without a `size` key is outside the model (the library always writes it). -/
+  curSize : Option Nat := none
 deriving Repr, DecidableEq
 
 deriving instance DecidableEq for Except
@@ -172,8 +181,35 @@ def gromacsTest (c : Cfg) : Except Err Unit :=
     let uniq := uniqueEngines ee
     gmxOuter (lookupAll c.engines uniq) (lookupAll c.engines uniq)
 
-/-- everything `check_config` does before the gromacs loop, tests in the code's order -/
+/-- `current = config.get("current", {}); if "size" in current and current["size"] != n_ens: raise`
+    (/repo commit 971ccbc): a restart state holds one slot per ensemble -/
+def sizeTest (c : Cfg) : Except Err Unit :=
+  match c.curSize with
+  | none => .ok ()
+  | some s => rejectIf (decide (s ≠ c.interfaces.length))
+
+/-- everything `check_config` does before the gromacs loop, tests in the code's order
+    (the `[current].size` test sits between the shooting-moves test and the cap tests) -/
 def preCheck (c : Cfg) : Except Err Unit :=
+  let n : Int := c.interfaces.length
+  seq (rejectIf (decide (n < 2))) <|
+  seq (lm1Test c.lm1 c.interfaces) <|
+  seq (rejectIf (c.quantis = some true && lm1Truthy c.lm1)) <|
+  seq (rejectIf (decide (c.workers > n - 1))) <|
+  seq (rejectIf (decide (isort c.interfaces ≠ c.interfaces))) <|
+  seq (rejectIf (decide ((distinct c.interfaces).length ≠ c.interfaces.length))) <|
+  seq (rejectIf (decide (c.interfaces.length > c.moves.length))) <|
+  seq (sizeTest c) <|
+  seq (capTest c.cap c.interfaces) <|
+  seq (roomTest c.cap c.interfaces c.moves) <|
+  engineListTest c
+
+/-- `check_config` -/
+def check (c : Cfg) : Except Err Unit := seq (preCheck c) (gromacsTest c)
+
+/-- RECORD of the code before /repo commit 971ccbc: the same tests without the `[current].size` test
+    (a restart state written for another number of interfaces was accepted and `load_paths` then failed) -/
+def preCheckAsIs (c : Cfg) : Except Err Unit :=
   let n : Int := c.interfaces.length
   seq (rejectIf (decide (n < 2))) <|
   seq (lm1Test c.lm1 c.interfaces) <|
@@ -186,8 +222,8 @@ def preCheck (c : Cfg) : Except Err Unit :=
   seq (roomTest c.cap c.interfaces c.moves) <|
   engineListTest c
 
-/-- `check_config` -/
-def check (c : Cfg) : Except Err Unit := seq (preCheck c) (gromacsTest c)
+/-- `check_config` as it was before 971ccbc -/
+def checkAsIs (c : Cfg) : Except Err Unit := seq (preCheckAsIs c) (gromacsTest c)
 
 /-! ### the defaults block of setup_config -/
 
@@ -201,7 +237,10 @@ def quantisOn (c : Cfg) : Bool := c.quantis = some true
 
 /-- lines 161-182: ensemble_engines, seed, quantis, lambda_minus_one, accept_all.
     `ensemble_engines[0] = ["engine0"]` only for a non-empty interface list (so the default list
-    is non-empty and nothing raises). -/
+    is non-empty and nothing raises).
+    Also the `[current]` table as far as `check_config` and `REPEX_state` read its size: `if "current" in
+    config` keeps the table of a restart file, `else` (fresh start) creates it with
+    `size = len(interfaces)` — both happen before the defaults and before `check_config`. -/
 def normalise (c : Cfg) : Cfg :=
   let has := hasEnsEngs c
   let ee : List (List String) :=
@@ -216,7 +255,14 @@ def normalise (c : Cfg) : Cfg :=
     seed := some (match c.seed with | some s => s | none => 0)
     quantis := some (quantisOn c)
     lm1 := (match c.lm1 with | .absent => .off | l => l)
-    acceptAll := some (match c.acceptAll with | some a => a | none => false) }
+    acceptAll := some (match c.acceptAll with | some a => a | none => false)
+    curSize := some (match c.curSize with | some s => s | none => c.interfaces.length) }
+
+/-- `setup_config` as it was before 971ccbc (defaults, then the old `check_config`) -/
+def setupConfigAsIs (c : Cfg) : Except Err Cfg :=
+  match checkAsIs (normalise c) with
+  | .error e => .error e
+  | .ok () => .ok (normalise c)
 
 /-- `setup_config` after the file has been read: defaults, then `check_config` -/
 def setupConfig (c : Cfg) : Except Err Cfg :=
@@ -247,7 +293,10 @@ def Restart.finished (cur : Restart) : Bool :=
     (restart branch: may stop with `None`; `clean_data_file` only touches the data file),
     `none` for a fresh start (the `[current]` table and the data-file header are created).
     Both branches then run the same tail: defaults, `check_config`.  `ok none` = the function
-    returned `None` (nothing starts). -/
+    returned `None` (nothing starts).
+    `c.curSize` is the `size` of the file's `[current]` table: `some _` exactly when `r = some _`
+    (the driver builds both from the same file); the fresh branch's own table (`size = len(interfaces)`)
+    is created inside `normalise`. -/
 def setupFile (c : Cfg) (r : Option Restart) : Except Err (Option Cfg) :=
   let tail : Except Err (Option Cfg) :=
     match setupConfig c with
@@ -291,6 +340,9 @@ def validB (c : Cfg) : Bool :=
       | .val x, some f => decide (x < f)
       | .val _, none => false
       | _, _ => true)
+  && (match c.curSize with
+      | some s => decide (s = c.interfaces.length)
+      | none => true)
 
 /-! ### initiate_ensembles -/
 
